@@ -26,6 +26,7 @@ var (
 	AddrEmptyAcct  = common.HexToAddress("0x000000000000000000000000000000000000100e") // exists in genesis with nonce 1 only
 	AddrCallFail   = common.HexToAddress("0x000000000000000000000000000000000000100f") // CALL(w0, value w1, data rest), SSTORE, then INVALID
 	AddrBlockhash  = common.HexToAddress("0x0000000000000000000000000000000000001010") // SSTORE(w0, BLOCKHASH(NUMBER - w0)); LOG1(topic = that hash)
+	AddrCodeSize   = common.HexToAddress("0x0000000000000000000000000000000000001012") // SSTORE(1, EXTCODESIZE(w0)); SSTORE(2, first word of EXTCODECOPY(w0)); LOG1(topic = size)
 	AddrLooper     = common.HexToAddress("0x0000000000000000000000000000000000001011") // w3 times: CALL (w0=0) or CALLCODE (w0!=0) to w1 with value w2 and gas w4; then stack churn and SSTORE(4,1)
 )
 
@@ -148,6 +149,17 @@ func codeBlockhash() []byte {
 	return a.Bytes()
 }
 
+// codeCodeSize records what the node says about another account's code.
+func codeCodeSize() []byte {
+	a := NewAsm()
+	a.Push(0).Op(CALLDATALOAD, EXTCODESIZE)   // [size]
+	a.Op(DUP1).Push(1).Op(SSTORE)              // SSTORE(1, size)  [size]
+	a.Push(32).Push(0).Push(0).Push(0).Op(CALLDATALOAD, 0x3c) // EXTCODECOPY(addr, 0, 0, 32)
+	a.Push(0).Op(MLOAD).Push(2).Op(SSTORE)     // SSTORE(2, mem[0:32])
+	a.Push(0).Push(0).Op(LOG0+1, STOP)         // LOG1(0,0,size)
+	return a.Bytes()
+}
+
 // codeLooper repeats a value-bearing CALL or CALLCODE and keeps computing afterwards.
 func codeLooper() []byte {
 	a := NewAsm()
@@ -194,7 +206,7 @@ func ZooCode() map[common.Address][]byte {
 		AddrStore: codeStore(), AddrMultiStore: codeMultiStore(), AddrEmit: codeEmit(), AddrReverter: codeReverter(),
 		AddrOOG: codeOOG(), AddrInvalid: codeInvalid(), AddrForwarder: codeForwarder(), AddrCreator: codeCreator(),
 		AddrSuicide: codeSuicide(), AddrRecursor: codeRecursor(), AddrBouncer: codeBouncer(),
-		AddrForwarder2: codeForwarder(), AddrSuicide2: codeSuicide(), AddrCallFail: codeCallFail(), AddrBlockhash: codeBlockhash(), AddrLooper: codeLooper(),
+		AddrForwarder2: codeForwarder(), AddrSuicide2: codeSuicide(), AddrCallFail: codeCallFail(), AddrBlockhash: codeBlockhash(), AddrLooper: codeLooper(), AddrCodeSize: codeCodeSize(),
 	}
 }
 
